@@ -30,13 +30,28 @@ class Gen:
             c["queue"] = 1
         if profile == "reads":
             c["max"] = 200
+        if profile == "evict":
+            c["max"] = r.choice([10, 12, 20])
+            c["counters"] = r.choice([8, 16, 64])
+            c["buffer"] = r.choice([1, 2])
+            c["pool"] = 1
+        if profile == "boundary":
+            c["max"] = r.choice([1, 2, 100, (1 << 62), (1 << 63) - 1])
+            c["counters"] = r.choice([1, 1, 2, 3])
+            c["queue"] = r.choice([1, 2])
+            c["pool"] = 1
+            c["buffer"] = 1
         return c
 
     def weight(self, max_w):
         r = self.rng
+        if max_w > (1 << 40):
+            return r.choice([1, 2, 24, 25, 1 << 61, 1 << 62, (1 << 62) + 1, (1 << 63) - 1, max_w, max_w - 1])
         return r.choice([1, 1, 2, 2, 3, 5, 7, max(1, max_w // 2), max(1, max_w // 3), max_w, max_w + 1, 25, 24])
 
-    def ttl(self):
+    def ttl(self, profile=None):
+        if profile == "boundary" and self.rng.random() < 0.3:
+            return self.rng.choice([0, 1, (1 << 63) * SEC, ((1 << 64) - 1) * SEC + 999999999, (1 << 62) * SEC])
         return self.rng.choice([0, 1, SEC, SEC, 2 * SEC, 3 * SEC, 5 * SEC, 7 * SEC + 5, 100 * SEC])
 
     def write_call(self, tid, keys, max_w, profile):
@@ -52,9 +67,9 @@ class Gen:
         if kind < 0.35:
             return "call %d put %d %d" % (tid, k, self.tok())
         if kind < 0.5:
-            return "call %d put_w_ttl %d %d %d %d" % (tid, k, self.tok(), wt, self.ttl())
+            return "call %d put_w_ttl %d %d %d %d" % (tid, k, self.tok(), wt, self.ttl(profile))
         if kind < 0.58:
-            return "call %d put_ttl %d %d %d" % (tid, k, self.tok(), self.ttl())
+            return "call %d put_ttl %d %d %d" % (tid, k, self.tok(), self.ttl(profile))
         if kind < 0.85:
             return self.upsert(tid, k, max_w, profile)
         return "call %d delete %d" % (tid, k)
@@ -70,7 +85,7 @@ class Gen:
             mode = r.random()
             ttl, rm = "-", "0"
             if mode < 0.35:
-                ttl = str(self.ttl())
+                ttl = str(self.ttl(profile))
             elif mode < 0.5:
                 rm = "1"
             if v != "-" or w != "-" or ttl != "-" or rm == "1":
@@ -115,6 +130,10 @@ class Gen:
             mix.update(shutdown=0.06, run=0.1)
         if profile == "awaited":
             mix.update(worker=0.0)
+        if profile == "evict":
+            mix.update(read=0.35, write=0.3, worker=0.2, drain=0.1, sweep=0.0, advance=0.0, shutdown=0.0)
+        if profile == "boundary":
+            mix.update(write=0.45, worker=0.25, read=0.1, drain=0.05)
         names = list(mix)
         weights = [mix[x] for x in names]
         nacks = 0
